@@ -353,7 +353,8 @@ def _get_cases(rng, tier, n_scen):
             if r != cid and r not in rids:
                 rids.append(r)
         # what is asked for
-        rk, req = rng.choice(_req_variants(rng, pdh, spec_pdh(tam)))
+        variants = _req_variants(rng, pdh, spec_pdh(tam))
+        rk, req = rng.choice(variants[:5]) if rng.random() < 0.55 else rng.choice(variants)
         if rng.random() < 0.12:
             # by-UUID request: own cluster, a configured remote, or an unknown prefix
             pref = rng.choice([cid] + rids + [_cluster(rng)])
